@@ -109,4 +109,11 @@ REGISTRY = {
                         "for handler failures p (failing token start) and q (sink length when the invocation started) are observed; for memory failures they are existentially quantified by the judge",
                         "the two documented exceptions (content being removed; text handler failing on a later chunk) are explicit disjuncts of the contract"],
     },
+    "C13": {
+        "level": "model_checking",
+        "traces": [{"job": "c13", "module": "TraceEnc", "cfg": "TraceEnc.cfg", "timeout": 1200, "timeout_thorough": 10800}],
+        "mc": [],
+        "assumptions": TOK_ASSUME + ["Decode / Encode are witnessed functions: encoding_rs applied once to the whole slice the specification designates (decode_without_bom_handling / encode); code-point tables are encoding_rs's (trusted base)",
+                                     "a string for which the record carries no witness for the slice the reference tokenizer designates is not compared (counted as unknown)"],
+    },
 }
